@@ -323,6 +323,11 @@ def cases(tier, seed):
         for where in ("filename", "dirname", "writedir"):
             for dup in (0, 1):
                 yield {"k": "typednames", "seq": si, "where": where, "dup": dup}
+    # (j) tables rendered from the data part, selected by a user selector
+    for ci in range(len(TABLE_CTXS)):
+        for nvals in (1, 2, 3):
+            for from_data in (0, 1):
+                yield {"k": "tables", "ctx": ci, "n": nvals, "from_data": from_data}
     # (f) MakeFilename naming rules
     for ci in range(len(MK_CONTEXTS)):
         for first in range(len(MK_VOCAB)):
@@ -1363,6 +1368,118 @@ def run_typednames(r, obs):
         shutil.rmtree(d, ignore_errors=True)
 
 
+# contexts of table values: without any output key, with an empty one, with other output keys
+TABLE_CTXS = [None, {}, {"output": {}}, {"output": {"dirname": "tabs"}},
+              {"output": {"filetype": "csv"}}, {"other": {"k": 1}}]
+
+
+def run_tables(r, obs):
+    """RenderLaTeX(select_data=user selector, from_data=...) -> MakeFilename -> Write over
+    several table values (dicts of rows) whose contexts have no output part or a partial one,
+    interleaved with values that are not selected; two runs, the second with one table changed:
+    every file is named from its own value, holds the text rendered from its own data,
+    and is flagged changed exactly when its content changed."""
+    import shutil
+    import tempfile
+    import lena.core
+    import lena.output
+    obs.nontrivial = True
+    base = TABLE_CTXS[r["ctx"]]
+    n, from_data = r["n"], r["from_data"]
+    d = tempfile.mkdtemp(prefix="rv_c19_tab_")
+    try:
+        tdir = os.path.join(d, "templates")
+        os.makedirs(tdir)
+        with open(os.path.join(tdir, "tab.tex"), "w") as f:
+            f.write("TABLE \\VAR{ title }\n\\BLOCK{ for row in rows }\n"
+                    "\\VAR{ row[0] } & \\VAR{ row[1] }\n\\BLOCK{ endfor }\nend")
+        odir = os.path.join(d, "out")
+
+        def is_table(val):
+            data = val[0] if isinstance(val, tuple) else val
+            return isinstance(data, dict) and "rows" in data
+
+        def build():
+            return lena.core.Sequence(
+                lena.output.RenderLaTeX("tab.tex", template_dir=tdir, select_data=is_table,
+                                        from_data=bool(from_data)),
+                lena.output.MakeFilename("{{title}}"),
+                lena.output.Write(odir, verbose=False))
+
+        def flow(version):
+            for i in range(n):
+                table = {"title": "t%d" % i,
+                         "rows": [[i, version if i == 0 else 7], [i + 1, 3]]}
+                if base is None and from_data:
+                    ctx = {}
+                else:
+                    ctx = copy.deepcopy(base) if base is not None else {}
+                ctx["title"] = table["title"]
+                if not from_data:
+                    ctx["rows"] = table["rows"]
+                yield (table, ctx)
+                yield 1000 + i                       # not selected, no context, not writable
+            return
+
+        def expected_text(i, version):
+            rows = [[i, version if i == 0 else 7], [i + 1, 3]]
+            return "TABLE t%d\n" % i + "".join("%s & %s\n" % (a, b) for a, b in rows) + "end"
+
+        pipe = build()
+        for run_i, version in enumerate((1, 1, 2)):
+            if run_i == 2 and r["ctx"] % 2:
+                pipe = build()              # a new pipeline object for the last run
+            out = list(pipe.run(flow(version)))
+            obs.count("table_runs")
+            tables = [v for v in out if isinstance(v, tuple)]
+            others = [v for v in out if not isinstance(v, tuple)]
+            obs.check(len(tables) == n and len(others) == n,
+                      "flow-length-changed:tables",
+                      "run %d of the table pipeline over %d tables and %d other values yielded "
+                      "%d tuples and %d others" % (run_i, n, n, len(tables), len(others)))
+            for i, v in enumerate(tables[:n]):
+                path, ctx = v
+                sub = (base or {}).get("output", {}).get("dirname", "")
+                exp_path = os.path.join(odir, sub, "t%d.tex" % i)
+                obs.check(path == exp_path, "file-name-differs-from-format:tables",
+                          "run %d: table %d (context %r, from_data=%r) was written to %r, its "
+                          "own title gives %r" % (run_i, i, base, from_data,
+                                                  os.path.relpath(str(path), d),
+                                                  os.path.relpath(exp_path, d)))
+                try:
+                    with open(exp_path) as f:
+                        on_disk = f.read()
+                except OSError:
+                    on_disk = None
+                obs.check(on_disk == expected_text(i, version), "file-content-wrong:tables",
+                          "run %d: file %s holds %r, the table named so renders to %r"
+                          % (run_i, os.path.relpath(exp_path, d), on_disk,
+                             expected_text(i, version)))
+                flag = ctx.get("output", {}).get("changed") if isinstance(ctx, dict) else None
+                if run_i == 0 or (run_i == 2 and i == 0):
+                    # (a file created without the flag is the recorded open finding)
+                    obs.check(flag is True, "write-changed-flag-not-true:tex-%s"
+                              % ("created" if run_i == 0 else "rewritten"),
+                              "run %d: Write %s the file of table %d but yielded "
+                              "output.changed=%r" % (run_i, "created" if run_i == 0 else "rewrote",
+                                                     i, flag))
+                else:
+                    obs.check(not flag, "write-changed-flag-wrong:tables",
+                              "run %d: table %d is unchanged but yielded output.changed=%r"
+                              % (run_i, i, flag))
+                oc = ctx.get("output", {}) if isinstance(ctx, dict) else {}
+                obs.check(oc.get("filename") == "t%d" % i and oc.get("fileext") == "tex"
+                          and oc.get("filetype") == "tex",
+                          "context-output-wrong:tables",
+                          "run %d: table %d yielded context.output %r" % (run_i, i, oc))
+            ids = [id(v[1].get("output")) for v in tables if isinstance(v[1], dict)]
+            obs.check(len(set(ids)) == len(ids), "output-context-shared-between-values:tables",
+                      "run %d: %d tables yielded %d distinct context.output objects"
+                      % (run_i, len(ids), len(set(ids))))
+    finally:
+        shutil.rmtree(d, ignore_errors=True)
+
+
 _REPORTED = {}          # mech -> number of violations reported by this worker process
 MAX_PER_MECH = 4        # per worker process; further repeats are counted, not listed
 
@@ -1379,6 +1496,8 @@ def run_case(r, obs):
             run_latexfail(r, obs)
         elif r["k"] == "typednames":
             run_typednames(r, obs)
+        elif r["k"] == "tables":
+            run_tables(r, obs)
         else:
             raise ValueError(r["k"])
     finally:
@@ -1391,3 +1510,7 @@ RULE += (' Added: converters terminated by a signal (KILL / TERM) instead of exi
          'one MakeFilename / Write over flows whose consecutive values carry format arguments that '
          'are equal but print differently (1 / 1.0 / True, Decimal 1.0 / 1.00, a list changed in '
          'place), original and deep-copied pipeline.')
+RULE += (' Added: tables - RenderLaTeX(select_data=user selector, from_data on/off) -> MakeFilename '
+         '-> Write over 1..3 table values whose contexts have no output part (or an empty / '
+         'partial one) interleaved with unselected values, three runs (same, same, one table '
+         'changed): own name, own content, changed flag, distinct context.output objects.')
